@@ -151,11 +151,13 @@ def getBondAxes (net : Net) (bid : Int) : Except Err (List Nat) := do
 
 /-! ### consistency check (`is_consistent`, every test in the code's order) -/
 
+/-- the per-tensor part: key = id, every bond id exists and the bond refers back to the tensor once for every
+axis attached to it (the multiplicity test now in /repo; it used to be `tensor.tid in bond.tids`) -/
 def checkTensor (net : Net) (k : Int) (t : STensor) : Bool :=
   k == t.tid && t.bids.all (fun bid =>
     match dget net.bonds bid with
     | none => false
-    | some bond => bond.tids.contains t.tid)
+    | some bond => bond.tids.count t.tid == t.bids.count bid)
 
 /-- the per-bond part; may raise like the code does (`get_bond_axes`, `tensor.shape[ax]`) -/
 def checkBond (net : Net) (k : Int) (bond : SBond) : Except Err Bool := do
